@@ -193,8 +193,23 @@ func c20rng(r *Run, s string) {
 	if err == nil {
 		res = fmt.Sprintf("ok %d %d %d %d", q[0], q[1], q[2], q[3])
 	}
-	r.Op("rng "+hx(s), res)
-	r.Case("rng:"+s, err == nil)
+	_, strict := c20specRange(s)
+	ln := r.Op("rng "+hx(s), res+" "+c20specRangeStr(s))
+	r.Case("rng:"+s, err == nil || strict)
+	switch {
+	case err == nil && strict:
+		r.Stat("rng:accept-strict")
+	case err == nil:
+		// the helper is internal: its leniency is reported where a public API exposes it (rngapi)
+		r.Stat("rng:accept-loose:" + c20looseKind(s))
+		if c20looseKind(s) == "other" {
+			r.Fail("rng:accept-non-range", fmt.Sprintf("rangeRefToCoordinates(%q) accepted: neither cell:cell nor one of the two known leniencies", s), ln, "rng "+hx(s))
+		}
+	case strict:
+		r.Fail("rng:reject-valid", fmt.Sprintf("rangeRefToCoordinates(%q) rejected although it is cell:cell inside the grid", s), ln, "rng "+hx(s))
+	default:
+		r.Stat("rng:reject")
+	}
 }
 
 func c20c2rng(r *Run, a, b, c, d int, abs bool) {
@@ -364,7 +379,7 @@ func c20randStr(rng *Rng) string {
 		n = rng.Range(13, 72)
 	}
 	var sb strings.Builder
-	mode := rng.Intn(5)
+	mode := rng.Intn(6)
 	for i := 0; i < n; i++ {
 		switch mode {
 		case 0: // letters only (long column names)
@@ -377,6 +392,8 @@ func c20randStr(rng *Rng) string {
 			}
 		case 2:
 			sb.WriteString(rng.Pick(c20alpha))
+		case 5: // letters and digits mixed with the neighbours of their ranges
+			sb.WriteString(rng.Pick(c20alphaEdge))
 		case 3: // arbitrary bytes incl. >= 0x80
 			sb.WriteByte(byte(rng.Intn(256)))
 		default:
@@ -387,7 +404,7 @@ func c20randStr(rng *Rng) string {
 }
 
 func runC20(r *Run, rng *Rng, replay string) {
-	r.Rule = "exhaustive: all 16384 columns both ways in three casings; boundary rows x sampled/all columns both abs modes; every string of length<=L over {A,Z,a,z,0,1,9,$,+,-,space,:,!,.}; seeded random strings (long names, raw bytes); accepted spellings through setter/getter pairs. non-trivial = accepted by impl or by the strict grammar (c2xy), every codec call otherwise; distinct by op text"
+	r.Rule = "exhaustive: all 16384 columns both ways in three casings; boundary rows x sampled/all columns both abs modes; every string of length<=L over {A,Z,a,z,0,1,9,$,+,-,space,:,!,.}; seeded random strings (long names, raw bytes); accepted spellings through setter/getter pairs; deepening: every string of length<=L over the neighbours alphabet {A,Z,a,z,0,9,$,/,:,@,[,`,{}, lenient range spellings through rangeRefToCoordinates and MergeCell/UnmergeCell, nine writer/reader pairs x three reader spellings on real Files. non-trivial = accepted by impl or by the strict grammar (c2xy), every codec call otherwise; distinct by op text"
 	if replay != "" {
 		c20replay(r, replay)
 		return
@@ -551,6 +568,8 @@ func runC20(r *Run, rng *Rng, replay string) {
 	for _, sp := range []string{"$XFD$1048576", "$xfd$1048575", "$ABC$0000012", "A0000000001", "$AAA$0000000000012"} {
 		c20spell(r, sp)
 	}
+	// 8. deepening round: range/letter-range neighbours, range decoder, range-taking cell APIs, writer/reader pairs
+	c20deepen(r, rng, thorough)
 	for _, s := range r.opsSample(10) {
 		r.Sample(s)
 	}
@@ -595,6 +614,10 @@ func c20replay(r *Run, path string) {
 			c20api(r, unhx(w[1]))
 		case "rng":
 			c20rng(r, unhx(w[1]))
+		case "rngapi":
+			c20rngapi(r, unhx(w[1]), unhx(w[2]))
+		case "paths":
+			c20paths(r, unhx(w[1]))
 		case "xy2c":
 			c, _ := strconv.Atoi(w[1])
 			ro, _ := strconv.Atoi(w[2])
